@@ -1,6 +1,8 @@
 package main
 
 import (
+	xmd4pkg "golang.org/x/crypto/md4"
+	"hash"
 	"os"
 )
 
@@ -20,3 +22,11 @@ func rmTemp(dir string) {
 func init() {
 	components["acl"] = runACL
 }
+
+func plainMD4(b []byte) []byte {
+	h := xmd4New()
+	h.Write(b)
+	return h.Sum(nil)
+}
+
+func xmd4New() hash.Hash { return xmd4pkg.New() }
